@@ -763,3 +763,46 @@ for _n in (1, 2):
                              "-latrange -lonrange -elevrange with values from small grids incl. end points equal to a station's coordinate and values "
                              "matching nothing; seeded random sample of the product (count in evidence)" % _n,
                        sizes=(2, 3), budget=24000, thorough_budget=300000, vary_axes=True, functions=["verif.data.Data.__init__"])
+
+
+# ----------------------------------------------------------------------------------------------
+# thresholds / quantiles / fields common to all inputs (used by the driver's defaults and by get_p requests)
+# ----------------------------------------------------------------------------------------------
+def _common_levels():
+    from .axis import _enumerated
+
+    def body():
+        cases = 0
+        combos = [([0.5, 2.0, 1.0], [1.0, 0.5]), ([], [1.0]), ([3.0], [3.0]), ([1.0, 2.0], [3.0]), ([2.0, 1.0], [2.0, 1.0, 0.0])]
+        for a, b in combos:
+            for n_in in (1, 2):
+                d = object.__new__(verif.data.Data)
+                ins = []
+                for k, lv in enumerate((a, b)[:n_in]):
+                    si = StubInput("in%d" % k, _np.zeros([1, 1, 1]), _np.zeros([1, 1, 1]))
+                    si.thresholds = _np.array(lv)
+                    si.quantiles = _np.array([x / 10.0 for x in lv])
+                    ins.append(si)
+                d._inputs = ins
+                want = sorted(set(a) & set(b)) if n_in == 2 else sorted(set(a))
+                cases += 1
+                got_t, got_q = list(d._get_thresholds()), list(d._get_quantiles())
+                if got_t != want or got_q != [x / 10.0 for x in want]:
+                    return cases, {"input-thresholds": [a, b][:n_in], "got": got_t, "want": want, "quantiles": got_q}
+        # fields common to all inputs
+        d = object.__new__(verif.data.Data)
+        i0 = StubInput("a", _np.zeros([1, 1, 1]), _np.zeros([1, 1, 1]), {"aux": _np.zeros([1, 1, 1])})
+        i1 = StubInput("b", None, _np.zeros([1, 1, 1]))
+        d._inputs = [i0, i1]
+        cases += 1
+        got = sorted(type(f).__name__ for f in d.get_fields())
+        if got != ["Fcst"]:
+            return cases, {"fields-common-to-both-inputs": got, "want": ["Fcst"]}
+        return cases, None
+    return body
+
+
+from .axis import _enumerated as _enum2
+_enum2("verif.data.Data._get_thresholds+_get_quantiles+get_fields#BOUNDED:common-to-all-inputs", ("C08", "C13"),
+       "five pairs of threshold lists (unsorted, empty, disjoint, equal) for one and two inputs; fields of an input with and without observations",
+       _common_levels(), ["verif.data.Data._get_thresholds", "verif.data.Data._get_quantiles", "verif.data.Data.get_fields"])
